@@ -57,12 +57,12 @@ func (ls *LogScrubber) Write(b []byte) (n int, err error) {
 	n = len(b)
 	ls.buffer = append(ls.buffer, b...)
 	for {
-		i := bytes.LastIndexByte(ls.buffer, '\n')
+		i := bytes.IndexByte(ls.buffer, '\n')
 		if i == -1 {
 			return
 		}
-		fullLines := ls.buffer[:i+1]
-		_, err = ls.Output.Write(Scrub(fullLines))
+		line := ls.buffer[:i+1]
+		_, err = ls.Output.Write(Scrub(line))
 		if err != nil {
 			return
 		}
